@@ -78,7 +78,7 @@ def run(res, tier, seed):
         res.count(f'N={n}')
         res.count('kind:' + ('rendezvous' if 'b' in kinds else 'long' if 'l' in kinds else 'empty' if not kinds else 'instant'))
         res.count('perturbed' if ln.endswith('perturb=1') else 'unperturbed')
-        ntasks = sum(1 for c in kinds if c != 'w')
+        ntasks = sum(1 for c in kinds if c not in 'wz')
         res.count('tasks: ' + ('<=4N' if ntasks <= 4 * n else '<=16N' if ntasks <= 16 * n else '>16N'))
         if 'w' in kinds and 'b' in kinds: res.count('pause and rendezvous in one script')
         if ln in CLASS: res.count('class:' + CLASS[ln])
